@@ -550,13 +550,15 @@ fn index_set_string(string: &mut String, mut index: isize, value: Object) -> Res
         ));
     }
 
+    // copy the replacement first: value may be the very string we are modifying (s[i] = s)
+    let replacement = value.as_str().to_string();
     string.replace_range(
         string
             .char_indices()
             .nth(index)
             .map(|(pos, ch)| (pos..pos + ch.len_utf8()))
             .unwrap(),
-        value.as_str(),
+        &replacement,
     );
 
     Ok(())
